@@ -273,6 +273,13 @@ fn main() {
         let alpha = sigma(&f.desc);
         let aref: Vec<&[u8]> = alpha.iter().map(|v| &v[..]).collect();
         gen::for_each_string(&aref, depth, &mut |s: &[u8]| c.check(f, s));
+        // every byte value before, between and after digits, after the point and in the exponent
+        let ec = exp_char(&f.desc);
+        for b in 0..=255u8 {
+            for shape in [vec![b], vec![b'1', b], vec![b, b'1'], vec![b'1', b, b'1'], vec![b'1', b'.', b], vec![b'1', b'.', b, b'1'], vec![b'1', ec, b], vec![b'1', ec, b'1', b]] {
+                c.check(f, &shape);
+            }
+        }
         c.done();
     });
     rep.note(format!("formats={} depth={}", cat.len(), depth));
